@@ -201,10 +201,13 @@ impl Consist {
 
     pub fn set_loco_vec(&mut self, loco_vec: Vec<Locomotive>) {
         self.loco_vec = loco_vec;
+        // the cached count of battery-equipped locomotives belongs to the old vector
+        self.n_res_equipped = None;
     }
 
     pub fn drain_loco_vec(&mut self, start: usize, end: usize) -> Vec<Locomotive> {
         let loco_vec = self.loco_vec.drain(start..end).collect();
+        self.n_res_equipped = None;
         loco_vec
     }
 
